@@ -120,14 +120,29 @@ func implAny(raw json.RawMessage) (any, error) {
 }
 
 // validated NodePool-style numeric expressions (what ValidateRequirement accepts: one non-negative integer)
-func genValidatedExprs(r *rand.Rand) []rg.Expr {
+// genValidatedExprs draws expressions for a NodePool template (malformed operand lists included: validation must reject
+// them) or, with wellFormed, for the pod side (pod specs are validated by the API server).
+func genValidatedExprs(r *rand.Rand, wellFormed ...bool) []rg.Expr {
+	onlyWellFormed := len(wellFormed) > 0 && wellFormed[0]
 	n := 1 + r.IntN(3)
 	es := make([]rg.Expr, 0, n)
 	nums := []string{"0", "1", "2", "3", "4", "5", "7", "05", rg.MaxIntS, "9223372036854775806"}
 	for i := 0; i < n; i++ {
 		switch op := rg.Ops[r.IntN(len(rg.Ops))]; {
 		case rg.IsCmp(op):
-			es = append(es, rg.Expr{Op: op, Values: []string{nums[r.IntN(len(nums))]}})
+			switch x := r.Float64(); {
+			case onlyWellFormed:
+				es = append(es, rg.Expr{Op: op, Values: []string{nums[r.IntN(len(nums))]}})
+			case x < 0.04:
+				// operand lists that validation must reject (the constructor reads values[0] unguarded)
+				es = append(es, rg.Expr{Op: op, Values: []string{}})
+			case x < 0.06:
+				es = append(es, rg.Expr{Op: op, Values: []string{"1", "2"}})
+			case x < 0.08:
+				es = append(es, rg.Expr{Op: op, Values: []string{[]string{"a", "1.5", "", "0x10"}[r.IntN(4)]}})
+			default:
+				es = append(es, rg.Expr{Op: op, Values: []string{nums[r.IntN(len(nums))]}})
+			}
 		case op == "In" || op == "NotIn":
 			k := r.IntN(4)
 			if op == "In" && k == 0 {
@@ -203,7 +218,7 @@ func genTmpl(r *rand.Rand, t core.Tier) any {
 	}
 	if r.Float64() < 0.5 && len(in.Reqs) > 0 {
 		k := in.Reqs[r.IntN(len(in.Reqs))].Key
-		in.PodReqs = append(in.PodReqs, KeyExprs{Key: k, Exprs: genValidatedExprs(r)[:1]})
+		in.PodReqs = append(in.PodReqs, KeyExprs{Key: k, Exprs: genValidatedExprs(r, true)[:1]})
 	}
 	if r.Float64() < 0.3 {
 		in.Annotations = append(in.Annotations, KV{K: "example.com/note", V: "x"})
